@@ -288,6 +288,8 @@ pub enum Kind {
     Pok,
     PokTs,
     ElGamal,
+    /// trait level seal_scalar_with_proof / verify_proof / verify_and_decrypt with a caller supplied generator
+    ElGamalCustomGenerator,
 }
 
 #[derive(Clone, Debug, PartialEq, Eq, Hash, Serialize, Deserialize)]
@@ -349,6 +351,7 @@ impl<C: Suite> Model for MExchange<C> {
                     }
                     if s == Scheme::Basic {
                         v.push(XSt { kind: Kind::ElGamal, s, k, len: 0, id: 0, e, reverse: false });
+                        v.push(XSt { kind: Kind::ElGamalCustomGenerator, s, k, len: 0, id: 0, e, reverse: false });
                     }
                 }
             }
@@ -514,6 +517,40 @@ impl<C: Suite> Model for MExchange<C> {
                     };
                     o.calls(1);
                     expect(o, key("library-verifies"), acc, "accept", "reject".into());
+                }
+            }
+            Kind::ElGamalCustomGenerator => {
+                let plain = &self.sks[1 - st.k];
+                let rplain = rf::scalar_from_be(&plain.to_be_bytes()).unwrap();
+                // a generator that is not the default one
+                let rgen = <C::R as RefSuite>::hash_to_pk(format!("custom generator {}", st.e).as_bytes(), <C::R as RefSuite>::DST_ELGAMAL);
+                let gen = to_lib_pk(&rgen).unwrap();
+                let want = rf::enc(&(rgen * rplain));
+                if !st.reverse {
+                    let r = with_env(vec![], None, || <C as BlsElGamal>::seal_scalar_with_proof(pk.0, plain.0, Some(gen), None, rand_chacha::ChaCha20Rng::from_seed(seed)));
+                    o.calls(1);
+                    match r {
+                        Ok(Ok((c1, c2, mp, bp, ch))) => {
+                            let dec = |x: &PkP<C>| <C::R as RefSuite>::pk_from(&pt(x)).unwrap();
+                            let sc = |x: &Sc<C>| rf::scalar_from_be(&sc_to_be::<C>(x)).unwrap();
+                            let acc = rf::elgamal_verify_gen::<C::R>(&rpk, &rgen, &dec(&c1), &dec(&c2), &sc(&mp), &sc(&bp), &sc(&ch));
+                            expect(o, key("reference-verifies"), acc, "accept (transcript binds the supplied generator)", "reject".into());
+                            let m = dec(&c2) - dec(&c1) * rsk;
+                            expect(o, key("reference-decrypts"), rf::enc(&m) == want, "plaintext times the supplied generator", "differs".into());
+                        }
+                        r => expect(o, key("prove-fails"), false, "Ok", verdict(&r).to_string()),
+                    }
+                } else {
+                    let b = rf::hash_to_scalar(&seed, b"c18-elgamal-b");
+                    let r = rf::hash_to_scalar(&seed, b"c18-elgamal-r");
+                    let (c1, c2, mp, bp, ch) = rf::elgamal_prove_gen::<C::R>(&rpk, &rgen, &rplain, &b, &r);
+                    let l = |x: &rf::RScalar| sc_from_be::<C>(&rf::scalar_to_be(x));
+                    let v = <C as BlsElGamal>::verify_proof(pk.0, Some(gen), to_lib_pk(&c1).unwrap(), to_lib_pk(&c2).unwrap(), l(&mp), l(&bp), l(&ch)).is_ok();
+                    let d = <C as BlsElGamal>::verify_and_decrypt(sk.0, Some(gen), to_lib_pk(&c1).unwrap(), to_lib_pk(&c2).unwrap(), l(&mp), l(&bp), l(&ch));
+                    // the same proof presented with the default generator must not verify
+                    let vdef = <C as BlsElGamal>::verify_proof(pk.0, None, to_lib_pk(&c1).unwrap(), to_lib_pk(&c2).unwrap(), l(&mp), l(&bp), l(&ch)).is_ok();
+                    o.calls(3);
+                    expect(o, key("library-verifies"), v && matches!(&d, Ok(x) if pt(x) == want) && !vdef, "accept with the supplied generator, decrypt to the plaintext point, reject under the default generator", format!("verify={} decrypt={} default={}", v, d.is_ok(), vdef));
                 }
             }
             Kind::ElGamal => {
